@@ -120,7 +120,7 @@ Definition PInv (s : st) : Prop := forall t e, pend (th s t) = Some e -> 0 < esz
 
 Lemma fstep_inv s o : pos_op o -> Inv s /\ PInv s -> Inv (fstep K s o) /\ PInv (fstep K s o).
 Proof.
-  intros Hpo [I P]. destruct o as [t e|t|t|t|t|l v|k v|k m|d]; cbn [fstep].
+  intros Hpo [I P]. destruct o as [t e|t|t|t|t|l v|k v|k m|d|t c]; cbn [fstep].
   - (* FClock *)
     destruct (pend (th s t)) eqn:Ep; [split; assumption|].
     destruct (tvalid (th s t) && passes_logger s e); [|split; assumption].
@@ -173,6 +173,10 @@ Proof.
   - split; assumption.
   - destruct (existsb (N.eqb m) (sfilt (sk s k)) || (m =? 0)); split; assumption.
   - split; assumption.
+  - (* FShrink: only the node structure changes *)
+    split.
+    + intro u. cbn. upd_cases u t; [apply TInv_sh|]; apply I.
+    + intros u e'. cbn. upd_cases u t; [cbn; apply P|apply P].
 Qed.
 
 (* ---------- backend helpers *)
@@ -237,6 +241,7 @@ Proof.
   { intros c g. apply TInv_sh. constructor; cbn; auto; try congruence; try (intros; discriminate). }
   assert (Tq1' : forall g, TInv (sh g (set_thr_q x q1 (qev x))) iss del).
   { intro g. apply TInv_sh. constructor; cbn; auto; congruence. }
+  destruct (u_blocked K x); [cbn [fst]; split; [apply Tq1'|reflexivity]|].
   destruct r as [off|]; [|cbn [fst]; split; [apply Tq1'|reflexivity]].
   destruct (qev x) as [|e rest] eqn:Eq; [cbn [fst]; split; [apply Tq1'|reflexivity]|].
   destruct (negb (c_grace K =? 0) && (tn <? ets e)); [cbn [fst]; split; [apply Tq1|reflexivity]|].
